@@ -480,7 +480,10 @@ Definition errno_after_cleanup (reported : errno_class) (steps : list (option er
    destructors, which only call free).  unlink, remove, close, fopen ... are not in the list. *)
 Definition benign_cleanup_calls : list String.string :=
   ["fclose"; "free"; "yaml_document_delete"; "yaml_parser_delete"; "yaml_emitter_delete";
-   "vnadata_free"; "vnacal_free"; "vnaproperty_delete"]%string%list.
+   "vnadata_free"; "vnacal_free"; "vnaproperty_delete";
+   (* vnadata_save_common restores the format string it had changed (fix DA90): parses, allocates and frees; like the
+      others it is trusted to leave errno alone when it succeeds - when it fails it reports itself *)
+   "vnadata_set_format"]%string%list.
 
 Definition all_benign (calls : list String.string) : bool :=
   forallb (fun c => existsb (String.eqb c) benign_cleanup_calls) calls.
